@@ -10,7 +10,7 @@ import (
 
 var elemVocab = []string{"a", "b", "i", "p", "div", "span", "img", "iframe", "table", "td", "tr", "object", "custom-x", "custom-y",
 	"svg", "math", "script", "style", "textarea", "title", "br", "hr", "video", "audio", "link", "area", "base", "blockquote", "q",
-	"del", "ins", "input", "source", "embed", "track", "xmp", "noscript", "plaintext", "frame", "frameset", "select", "option", "font",
+	"del", "ins", "input", "source", "embed", "track", "xmp", "noscript", "plaintext", "frame", "frameset", "select", "option", "font", "mark", "kbd",
 	"noembed", "noframes", "nostyle", "bdo", "time", "ul", "li", "form", "meta", "image", "x-y"}
 var voidElems = map[string]bool{"area": true, "base": true, "br": true, "col": true, "embed": true, "hr": true, "img": true, "input": true,
 	"link": true, "meta": true, "param": true, "source": true, "track": true, "wbr": true, "frame": true}
@@ -157,6 +157,9 @@ func randPolicy(rng *rand.Rand, allowUnsafe bool) *PolicySpec {
 	for i := 0; i < n; i++ {
 		ps.Ops = append(ps.Ops, randOp(rng))
 	}
+	if rng.Intn(5) == 0 {
+		ps.Ops = append(ps.Ops, Op{Kind: "comments"})
+	}
 	if allowUnsafe && rng.Intn(8) == 0 {
 		ps.Ops = append(ps.Ops, Op{Kind: "unsafe", B: true})
 	}
@@ -281,9 +284,26 @@ func newDocGen(rng *rand.Rand, ps *PolicySpec) *docGen {
 	return g
 }
 
+// lookalike replaces an ASCII letter by a non-ASCII one that Unicode case mapping folds onto it
+func lookalike(rng *rand.Rand, name string) string {
+	if rng.Intn(25) != 0 {
+		return name
+	}
+	switch {
+	case strings.Contains(name, "k"):
+		return strings.Replace(name, "k", "\u212a", 1)
+	case strings.Contains(name, "i"):
+		return strings.Replace(name, "i", "\u0130", 1)
+	case strings.Contains(name, "s"):
+		return strings.Replace(name, "s", "\u017f", 1)
+	}
+	return name
+}
+
 func (g *docGen) startTag(name string, selfClose bool) string {
 	rng := g.rng
 	var b strings.Builder
+	name = lookalike(rng, name)
 	b.WriteString("<" + recase(rng, name))
 	n := rng.Intn(4)
 	if rng.Intn(3) == 0 {
@@ -353,7 +373,7 @@ func (g *docGen) soup() string {
 		case k < 7:
 			b.WriteString(g.startTag(pick(rng, g.elems), rng.Intn(6) == 0))
 		case k < 10:
-			b.WriteString("</" + recase(rng, pick(rng, g.elems)) + ">")
+			b.WriteString("</" + recase(rng, lookalike(rng, pick(rng, g.elems))) + ">")
 		case k < 11:
 			b.WriteString(pick(rng, []string{"<!-- c -->", "<!DOCTYPE html>", "<![CDATA[x]]>", "<?pi?>", "</>", "</ x>", "<!x>", "<!--", "<!-", "<a", "<a href=", "<a href=\"x", "</a", "<", "<!DOC", "<scr\x00ipt>", "<scrİpt>", "<ſcript>", "<script/>alert(1)</script>", "<style/>x</style>"}))
 		default:
